@@ -4,7 +4,7 @@
 #    demo fails with the patch and passes without;  2. applies it to /repo, runs the property check(s), reverts.
 set -u
 export GOFLAGS=-mod=mod GOPROXY=off GOSUMDB=off GOTOOLCHAIN=local
-SEED=$1; NAME=$2; PROP=$3; shift 3
+SEED=$1; NAME=$2; PROP=$3; PROP0=$3; shift 3
 OUT=/verif/seeded/$NAME
 mkdir -p $OUT
 cp $SEED/patch.diff $SEED/zz_seed_demo_test.go $OUT/ 2>/dev/null
@@ -29,20 +29,27 @@ CONF=no
 if [ $B -eq 0 ] && [ $S -eq 0 ] && [ $W -eq 0 ] && [ $D -ne 0 ]; then CONF=yes; fi
 echo "confirmed=$CONF"
 cd /verif
+DET=""
+if [ -n "${SEEDCHECK_CONFIRM_ONLY:-}" ]; then set --; PROP=""; fi
+if [ -z "${SEEDCHECK_CONFIRM_ONLY:-}" ]; then
 if [ -n "$(git -C /repo status --porcelain)" ]; then echo "refusing: /repo has uncommitted changes"; exit 2; fi
 # detection run against /repo itself
 git -C /repo apply $OUT/patch.diff || { echo "cannot apply to /repo"; exit 2; }
-DET=""
-for P in $PROP "$@"; do
+fi
+PROPS="$PROP $@"
+[ -n "${SEEDCHECK_CONFIRM_ONLY:-}" ] && PROPS=""
+for P in $PROPS; do
   ./check.sh $P quick > $OUT/check_$P.log 2>&1; RC=$?
   V=$(grep -c '^VIOLATION' $OUT/check_$P.log)
   echo "check $P: exit=$RC violations=$V"
   grep '^VIOLATION' $OUT/check_$P.log | sed 's/.*obligation=/   /' | head -5
   DET="$DET $P:$RC"
 done
+if [ -z "${SEEDCHECK_CONFIRM_ONLY:-}" ]; then
 git -C /repo checkout -- . 
 git -C /repo status --short | grep -v '^??' | head -3
+fi
 python3 - <<PY
 import json
-json.dump({"name":"$NAME","property":"$PROP","confirmed":"$CONF"=="yes","build_rc":$B,"existing_suite_rc_with_patch":$S,"demo_rc_without_patch":$W,"demo_rc_with_patch":$D,"checks_run":"$DET".split(),"what_ran":"tools/seedcheck.sh: scratch worktree of /repo HEAD under /var/tmp; go build ./...; go test -vet=off -count=1 ./... with the patch; TestSeedDemo with and without the patch; then git -C /repo apply, ./check.sh <prop> quick, git -C /repo checkout -- ."},open("$OUT/meta.json","w"),indent=1)
+json.dump({"name":"$NAME","property":"$PROP0","confirmed":"$CONF"=="yes","build_rc":$B,"existing_suite_rc_with_patch":$S,"demo_rc_without_patch":$W,"demo_rc_with_patch":$D,"checks_run":"$DET".split(),"what_ran":"tools/seedcheck.sh: scratch worktree of /repo HEAD under /var/tmp; go build ./...; go test -vet=off -count=1 ./... with the patch; TestSeedDemo with and without the patch; then git -C /repo apply, ./check.sh <prop> quick, git -C /repo checkout -- ."},open("$OUT/meta.json","w"),indent=1)
 PY
